@@ -88,11 +88,15 @@ CHECKS += [
     bchk("C06", "BOUNDED, exhaustive in the property's own bound (never counted as proved). Runtime contract on the real calculate_logic_gates: the "
          "inferred AND/OR/XOR tree admits every observed successor set, for every gate tree over <= 5 (thorough 6) distinct events, depth <= 3, "
          "alternating operators, with its full outcome family; and admits exactly those sets on the stated sub-class (OR over plain events only, no AND "
-         "with two OR children). Soundness additionally on arbitrary observed families over 3 events (all) and 4 events (4000 sampled; thorough all 32767), on sampled PARTIAL observations (sub-families of 3-9 outcomes) of every enumerated tree, on random families over 5 and 6 events, on two families with an 8-event set, and after / before another inference in the same process (no hidden state).",
+         "with two OR children). Soundness additionally on arbitrary observed families over 3 events (all) and 4 events (4000 sampled; thorough all 32767), on sampled PARTIAL observations (sub-families of 3-9 outcomes) of every enumerated tree, on random families over 5 and 6 events, on two families with an 8-event set, after / before another inference in the same process (no hidden state), and for every tree over <= 4 (thorough 5) events under seven pools of adversarial event names (names that are joins of one another, 'tau', '', operator symbols, blanks / commas / quotes; the start marker |||START||| is reserved).",
          "Bounded exploration: pm4py's inductive miner is external and has no contract, so no function-level contract can carry the property. "
          "Additionally PROVED (contracts/c06.py, 24 clauses, all inputs): utils.get_weighted_cover - a returned cover consists of observed sets, covers the "
          "universe, is pairwise disjoint, and every observed set is a union of whole members (what makes 'AND under OR' admit every observed set); "
-         "one-directional: when a cover must be found is not specified (the selection key, a float ratio, is abstracted to 'some element').",
+         "one-directional: when a cover must be found is not specified (the selection key, a float ratio, is abstracted to 'some element'). "
+         "PROVED too (contracts/c06_tree.py, 55 clauses, all trees): the in-place rewrite logic_detection.infer_or_gate_from_node on pm4py's ProcessTree as "
+         "a heap record keeps parent pointers well-formed two levels deep, loses no child and no non-tau branch of an optional XOR, and touches nothing "
+         "unless the node is an AND with an optional XOR child (structural only: check_is_or_operator is an arbitrary boolean; ProcessTree(...) and "
+         "str(tree) == 'tau' are trusted models; the same clauses run natively on pm4py trees).",
          "DESIGN.md 4/C06"),
     bchk("C09", "BOUNDED (never counted as proved). The contract of find_unique_graphs - for each workflow name the selected traces contain exactly one "
          "member of every call-tree shape class, never two of one class, same answer for every batch size and ingestion order - is evaluated on the real "
